@@ -15,8 +15,10 @@ Local Open Scope N_scope.
 (** For every source whose tables are sound and hold their blocks, every commit list that is
     parent-first and closed modulo what the destination holds, every declared set of common
     commits known to the source and FULL at the destination, every tablesToSend, every size
-    function and EVERY size limit, every destination that is Closed, well-formed and names the
-    same content by the same ids (otherwise any subset of objects): the loop WriteObjects /
+    function and EVERY size limit, every destination that is Closed, whose stored tables are
+    usable and that names the same content by the same ids (otherwise any subset of commits,
+    tables, blocks; see C07_exact_any_destination for a destination holding any subset of objects
+    of any kind): the loop WriteObjects /
     Receive terminates with the sender done, no rejection, no sender error, within its fuel;
     the packfiles partition the stream and are non-empty; and the destination then holds
     exactly the sent commits, the sent tables and their blocks, identical to the source's,
@@ -31,6 +33,33 @@ Theorem C07_exact : forall bshape size src dst to_send tbs commons max,
     exact_post bshape src dst to_send tbs d'.
 Proof. exact exact_transfer. Qed.
 Print Assumptions C07_exact.
+
+(** The same with NO well-formedness assumed of the destination's tables: it may hold any subset
+    of objects of any kind - a table object without its block indices / table index / profile /
+    blocks, indices without the table, bare blocks ... (only the table of a declared-common
+    commit, whose blocks the sender withholds, must be usable there).  Then every SENT table is
+    usable at the end (apost_usable: blocks, rebuilt block indices, table index, profile), all
+    stored tables are if they all were before (apost_wf), and everything else of C07_exact holds. *)
+Theorem C07_exact_any_destination : forall bshape size src dst to_send tbs commons max,
+  exact_pre_any bshape src dst to_send tbs commons -> commons_full src dst commons ->
+  exists objs d' packs,
+    stream src to_send tbs commons = Some objs /\
+    transfer bshape size src to_send tbs commons max dst = TDone d' packs /\
+    packs_of objs packs /\
+    exact_post_any bshape src dst to_send tbs d'.
+Proof. exact exact_transfer_any. Qed.
+Print Assumptions C07_exact_any_destination.
+
+(** Whatever the store held before and whatever the object sequence: every table object of an
+    ACCEPTED sequence is usable at the end (pk in range, every block present, non-empty and of
+    the table's width, block indices equal to re-indexing and stored, table index and profile
+    stored).  In particular a table object that was already at the destination without its
+    derived objects is repaired by receiving it. *)
+Theorem C07_received_usable : forall bshape d objs d',
+  recv_all bshape d objs = ROk d' ->
+  forall l1 t tc l2, objs = l1 ++ OTable t tc :: l2 -> table_ok bshape d' t tc.
+Proof. exact received_usable. Qed.
+Print Assumptions C07_received_usable.
 
 (** "closed modulo the declared common commits" in the words of the negotiation: every parent
     is listed earlier or is an ancestor-or-self (in the source graph) of a declared common
@@ -152,3 +181,13 @@ Theorem C07_nonvacuous :
                        [OBlock 3 103]; [OTable 11 Example.T11]; [OCommit 1 Example.C1]].
 Proof. exact (conj Example.pre (conj Example.full Example.runs)). Qed.
 Print Assumptions C07_nonvacuous.
+
+(** ... and the preconditions do not force a well-formed destination: the same transfer into a
+    destination that holds the table object of the first table alone (no blocks, no indices,
+    no profile) and a stray table index. *)
+Theorem C07_nonvacuous_partial_destination :
+  exact_pre_any Example.sh Example.src Example.dst_partial Example.to_send [10; 11] [] /\
+  commons_full Example.src Example.dst_partial [] /\
+  ~ TablesWF Example.sh Example.dst_partial.
+Proof. exact (conj Example.pre_partial (conj Example.full_partial Example.not_wf_partial)). Qed.
+Print Assumptions C07_nonvacuous_partial_destination.
